@@ -86,21 +86,21 @@ Lemma field_roundtrip_all : forall v, field_rt v.
 Proof.
   induction v using fv_ind'; intros Hwf fuel r Hf; (destruct fuel as [|fuel]; [cbn [fneed] in Hf; lia|]);
     cbn [enc_field]; rewrite <- ?app_comm_cons; cbn [read_field]; rewrite pnum1_cons; cbn [pbind].
-  - (* bool *) change (b2n "t") with 116. cbv iota beta. cbn [app]. rewrite pnum1_cons. cbn [pbind]. destruct b; reflexivity.
-  - (* byte *) change (b2n "b") with 98. cbv iota beta. cbn [wf_fv] in Hwf.
+  - (* bool *) change (ftag_of (b2n "t")) with (ftag_of 116); cbv beta iota delta [ftag_of]. cbn [app]. rewrite pnum1_cons. cbn [pbind]. destruct b; reflexivity.
+  - (* byte *) change (ftag_of (b2n "b")) with (ftag_of 98); cbv beta iota delta [ftag_of]. cbn [wf_fv] in Hwf.
     rewrite (pnum_enc 1) by (change (256 ^ N.of_nat 1) with 256; exact Hwf). reflexivity.
-  - (* short *) change (b2n "s") with 115. cbv iota beta. cbn [wf_fv] in Hwf. exact (pnum_enc_s FShort 2 z r ltac:(lia) Hwf).
-  - (* int *) change (b2n "I") with 73. cbv iota beta. cbn [wf_fv] in Hwf. exact (pnum_enc_s FInt 4 z r ltac:(lia) Hwf).
-  - (* long *) change (b2n "l") with 108. cbv iota beta. cbn [wf_fv] in Hwf. exact (pnum_enc_s FLong 8 z r ltac:(lia) Hwf).
-  - (* float *) change (b2n "f") with 102. cbv iota beta. cbn [wf_fv] in Hwf.
+  - (* short *) change (ftag_of (b2n "s")) with (ftag_of 115); cbv beta iota delta [ftag_of]. cbn [wf_fv] in Hwf. exact (pnum_enc_s FShort 2 z r ltac:(lia) Hwf).
+  - (* int *) change (ftag_of (b2n "I")) with (ftag_of 73); cbv beta iota delta [ftag_of]. cbn [wf_fv] in Hwf. exact (pnum_enc_s FInt 4 z r ltac:(lia) Hwf).
+  - (* long *) change (ftag_of (b2n "l")) with (ftag_of 108); cbv beta iota delta [ftag_of]. cbn [wf_fv] in Hwf. exact (pnum_enc_s FLong 8 z r ltac:(lia) Hwf).
+  - (* float *) change (ftag_of (b2n "f")) with (ftag_of 102); cbv beta iota delta [ftag_of]. cbn [wf_fv] in Hwf.
     rewrite (pnum_enc 4) by (change (256 ^ N.of_nat 4) with (2 ^ 32); exact Hwf). reflexivity.
-  - (* double *) change (b2n "d") with 100. cbv iota beta. cbn [wf_fv] in Hwf.
+  - (* double *) change (ftag_of (b2n "d")) with (ftag_of 100); cbv beta iota delta [ftag_of]. cbn [wf_fv] in Hwf.
     rewrite (pnum_enc 8) by (change (256 ^ N.of_nat 8) with (2 ^ 64); exact Hwf). reflexivity.
-  - (* decimal *) change (b2n "D") with 68. cbv iota beta. cbn [wf_fv] in Hwf. destruct Hwf as [Hs Hz].
+  - (* decimal *) change (ftag_of (b2n "D")) with (ftag_of 68); cbv beta iota delta [ftag_of]. cbn [wf_fv] in Hwf. destruct Hwf as [Hs Hz].
     rewrite <- app_assoc. rewrite (pnum_enc 1) by (change (256 ^ N.of_nat 1) with 256; exact Hs). cbn [pbind].
     exact (pnum_enc_s (FDecimal s) 4 z r ltac:(lia) Hz).
-  - (* string *) change (b2n "S") with 83. cbv iota beta. cbn [wf_fv] in Hwf. rewrite read_longstr_enc by exact Hwf. reflexivity.
-  - (* array *) change (b2n "A") with 65. cbv iota beta. apply wf_arr_split in Hwf. destruct Hwf as [Hlen Hwl].
+  - (* string *) change (ftag_of (b2n "S")) with (ftag_of 83); cbv beta iota delta [ftag_of]. cbn [wf_fv] in Hwf. rewrite read_longstr_enc by exact Hwf. reflexivity.
+  - (* array *) change (ftag_of (b2n "A")) with (ftag_of 65); cbv beta iota delta [ftag_of]. apply wf_arr_split in Hwf. destruct Hwf as [Hlen Hwl].
     rewrite fneed_arr in Hf. fold (enc_items l). unfold enc_longstr. rewrite <- app_assoc.
     rewrite (pnum_enc 4) by (change (256 ^ N.of_nat 4) with (2 ^ 32); exact Hlen). cbn [pbind].
     assert (Hmin : N.to_nat (N.min (Blen (enc_items l)) (Blen (enc_items l ++ r))) = length (enc_items l)).
@@ -108,21 +108,21 @@ Proof.
     rewrite Hmin. rewrite firstn_app, Nat.sub_diag, firstn_all, firstn_O, app_nil_r.
     rewrite skipn_app, Nat.sub_diag, skipn_all, skipn_O. cbn [app].
     rewrite (items_rt l H Hwl) by lia. reflexivity.
-  - (* time *) change (b2n "T") with 84. cbv iota beta. cbn [wf_fv] in Hwf.
+  - (* time *) change (ftag_of (b2n "T")) with (ftag_of 84); cbv beta iota delta [ftag_of]. cbn [wf_fv] in Hwf.
     assert (Hin : in_s (8 * N.of_nat 8) z) by (unfold in_s, time_ok in *; cbn; lia).
     pose proof (pnum_enc_s (fun v => FTime (clamp_time v)) 8 z r ltac:(lia) Hin) as Hp.
     etransitivity; [exact Hp|]. cbv beta. f_equal. f_equal.
     unfold clamp_time, time_ok in *.
     destruct (Z.ltb_spec z (-62167219200)); destruct (Z.leb_spec 253402300800 z); cbn [orb]; lia.
-  - (* table *) change (b2n "F") with 70. cbv iota beta. apply wf_tab_split in Hwf. destruct Hwf as [Hlen Hwt].
+  - (* table *) change (ftag_of (b2n "F")) with (ftag_of 70); cbv beta iota delta [ftag_of]. apply wf_tab_split in Hwf. destruct Hwf as [Hlen Hwt].
     rewrite fneed_tab in Hf. fold (enc_entries t). rewrite read_longstr_enc by exact Hlen. cbn [pbind].
     rewrite (entries_rt t H Hwt) by lia. reflexivity.
-  - (* bytes *) change (b2n "x") with 120. cbv iota beta. cbn [wf_fv] in Hwf. unfold enc_longstr. rewrite <- app_assoc. unfold max_str in Hwf.
+  - (* bytes *) change (ftag_of (b2n "x")) with (ftag_of 120); cbv beta iota delta [ftag_of]. cbn [wf_fv] in Hwf. unfold enc_longstr. rewrite <- app_assoc. unfold max_str in Hwf.
     rewrite (pnum_enc 4) by (change (256 ^ N.of_nat 4) with 4294967296; lia). cbn [pbind].
     assert (Hs : (signed 32 (Blen s) <? 0)%Z = false).
     { unfold signed. change (2 ^ (32 - 1)) with 2147483648. destruct (N.ltb_spec (Blen s) 2147483648); lia. }
     rewrite Hs. rewrite ptake_app by reflexivity. reflexivity.
-  - (* void *) change (b2n "V") with 86. cbv iota beta. reflexivity.
+  - (* void *) change (ftag_of (b2n "V")) with (ftag_of 86); cbv beta iota delta [ftag_of]. reflexivity.
 Qed.
 
 (* C05, field values: all 14 types, nested to any depth *)
